@@ -708,6 +708,13 @@ class Subject:
         except Exception as e:  # noqa: BLE001
             out16 = ("raised", errname(e), getattr(e, "address", None))
         self.hs.add(call, out)
+        if "C13" in self.props:
+            # whether a simulation is done is a question that always has an answer, also after a step that raised
+            try:
+                sut.is_done()
+            except Exception as e:  # noqa: BLE001
+                self.violate("C13", "is_done-raised", got=errname(e), after=call, step_outcome=list(out)[:2])
+                return out
         if out != out16:
             self.violate("C16", "step-outcome-differs-from-uninspected-shadow", expected=out16, got=out, call=call)
         if out[0] == "raised":
